@@ -40,9 +40,18 @@ a6.append("\n" + rd(os.path.join(D, "A6_false_alarms.md")).strip())
 rows = []
 for f in sorted(glob.glob(os.path.join(ROOT, "seeded", "*", "meta.json"))):
     m = json.load(open(f))
-    rows.append("| `%s` | %s | %s | %s | %s |" % (os.path.basename(os.path.dirname(f)), m.get("property"), short(m.get("change", ""), 200).replace("|", "\\|"),
-                                            short(m.get("needs", ""), 200).replace("|", "\\|"), short(m.get("caught_by", "not run yet"), 260).replace("|", "\\|")))
-a7 = ["| seeded change | breaks | the change | needs, to manifest | caught by (check: how it reports) |", "|---|---|---|---|---|"] + rows
+    fin = "-"
+    ff = os.path.join(os.path.dirname(f), "final.json")
+    if os.path.exists(ff):
+        fj = json.load(open(ff))
+        def word(r):
+            if r["exit"] == 1 and r["violations"]:
+                return "VIOLATION" + (" (no-failing-input-found)" if r["no_failing_input_found"] >= r["violations"] else "")
+            return {0: "passes"}.get(r["exit"], "exit %d" % r["exit"])
+        fin = "; ".join("%s %s" % (c, word(r)) for c, r in fj["results"].items()) + " @%s" % fj.get("repo_head", "?")
+    rows.append("| `%s` | %s | %s | %s | %s | %s |" % (os.path.basename(os.path.dirname(f)), m.get("property"), short(m.get("change", ""), 200).replace("|", "\\|"),
+                                            short(m.get("needs", ""), 200).replace("|", "\\|"), short(m.get("caught_by", "not run yet"), 260).replace("|", "\\|"), fin))
+a7 = ["| seeded change | breaks | the change | needs, to manifest | caught by (check: how it reports; as recorded when the change was taken in) | last re-run of the quick tier (tools/final_seeds.py, seed 1) |", "|---|---|---|---|---|---|"] + rows
 a7.append("\n" + rd(os.path.join(D, "A7_notes.md")).strip())
 
 a8 = ["| property | reason it is not claimed |", "|---|---|"] + ["| %s | %s |" % (n["property_id"], n["reason"]) for n in man.get("not_applicable", [])]
